@@ -2671,7 +2671,7 @@ def c11_alloc_step(env, ob):
     return merge(a, b)
 
 
-@obligation(id="C11.dealloc_step", funcs="Pager::dealloc_page,Pager::dealloc_page::{closure#0}",
+@obligation(id="C11.dealloc_step", also="C12", funcs="Pager::dealloc_page,Pager::dealloc_page::{closure#0}",
             bounds="every path of Pager::dealloc_page<P> from an arbitrary page-zero state; cache, page I/O and header "
                    "accessors uninterpreted; the closure that links the old tail is executed from MIR",
             native="c11_free_list_step")
@@ -2730,7 +2730,11 @@ def c11_dealloc_step(env, ob):
         got = _opt_is(rem[0], True)
         if not _evs(path, r"MemFrame::dealloc$"):
             return ("released_page_keeps_its_old_header", conj([isok, got]))
-        if not _evs(path, r"MemFrame::with_bytes::<|Pager::write_block$") and not _evs(path, r"MemFrame::mark_dirty$"):
+        de = idx(path, r"MemFrame::dealloc$")[0]
+        wrote = [k for k in idx(path, r"MemFrame::with_bytes::<|Pager::write_block$") if k > de]
+        dirty = [k for k in idx(path, r"MemFrame::mark_dirty$") if k > de]
+        if not wrote and not dirty:
+            # (MemFrame::dealloc builds a new, clean frame: a dirty flag set on the old one is gone)
             return ("free_page_image_neither_written_nor_marked_dirty", conj([isok, got]))
         return None
     c = trace_obligation(env, ob, ctx, res, bad_image, "the released page's free image is lost")
